@@ -633,6 +633,6 @@ func build(tier string) ([]runner.Instance, time.Duration) {
 }
 
 func main() {
-	runner.Main(runner.Options{Property: "C15", Level: "exploration", Build: build,
+	runner.Main(runner.Options{Property: "C15", Level: "exploration", Build: build, RacePoints: true,
 		Assume: []string{"model of sync/context/channels in verif/vs (DESIGN §2.2)", "small scope: <=3 concurrent callers, Limit(n<=2), Retry(n<=3)"}})
 }
